@@ -5,6 +5,8 @@ from harness.common import LeanLock, VERIF
 
 
 def translator_obligations(ctx, prefixes):
+    if os.environ.get('VERIF_SUBRUN'):
+        return {}            # sub-run of the thorough tier: the parent ran the translator
     from translator import py2lean
     with LeanLock():
         status, bad, changed = py2lean.main()
